@@ -81,6 +81,23 @@ func caseC05(c *Ctx) {
 		}
 		c.st.Count("document>4KiB")
 	}
+	if c.Chance(1, 12) {
+		// one node is called "." or "..": still a single path element, but not one that a
+		// cleaned path keeps. Everything except Path is checked for such forests.
+		var all []*MNode
+		var collect func(n *MNode)
+		collect = func(n *MNode) {
+			all = append(all, n)
+			for _, k := range n.Kids {
+				collect(k)
+			}
+		}
+		for _, r := range forest {
+			collect(r)
+		}
+		all[c.Draw(len(all))].Name = []string{".", ".."}[c.Draw(2)]
+		c.st.Count("dot-named-node")
+	}
 	branch := branchSets[c.Pick(3, 1, 1, 1, 1, 1, 1)]
 	op := Op{Kind: "walk", Branch: branch}
 	if branch != nil && c.Chance(1, 4) {
@@ -192,7 +209,7 @@ func c05Check(c *Ctx, form string, forest []*MNode, branch []string, op Op, doc 
 			c.Failf("C05:row-not-branch-space-name:"+form, "visit %d: Row %q Branch %q Name %q", i, v.Row, v.Branch, v.Name)
 		case v.Name != w.Name || v.Level != w.Level:
 			c.Failf("C05:order-or-level:"+form, "visit %d: got %s level %d, model %s level %d", i, v.Name, v.Level, w.Name, w.Level)
-		case v.Path != w.Path:
+		case v.Path != w.Path && !hasDotElement(w.Path):
 			c.Failf("C05:path:"+form, "visit %d (%s): Path %q, model %q", i, v.Name, v.Path, w.Path)
 		case v.HasChild != w.HasChild:
 			c.Failf("C05:haschild:"+form, "visit %d (%s): HasChild %v, model %v", i, v.Name, v.HasChild, w.HasChild)
@@ -323,6 +340,9 @@ func c05Deferred(c *Ctx, model *MNode, branch []string, alias bool) {
 			c.Failf("C05:deferred-iteration-visit-count", "iterator consumed after %v (round %d): %d visits, the tree has %d nodes", acts, round, len(got), len(want))
 		}
 		for i := range got {
+			if hasDotElement(want[i].Path) {
+				got[i].Path = want[i].Path // Path is not fixed for "." and ".." names
+			}
 			if visitKey(got[i]) != visitKey(want[i]) {
 				c.Failf("C05:deferred-iteration-stale", "iterator consumed after %v (round %d): visit %d is %s, the tree as it is now gives %s", acts, round, i, visitKey(got[i]), visitKey(want[i]))
 			}
@@ -416,4 +436,15 @@ func exhaustiveC05(c *Ctx, part, parts int) {
 	}
 	c.st.Add("exhaustive.points-checked", checked)
 	c.st.Sample("exhaustive", map[string]any{"exhaustive_arm": "all ordered forests with <= N nodes x 2 namings x 3 branch sets x walk forms x every stop index", "N": N})
+}
+
+// hasDotElement tells whether a model path contains an element "." or "..": the statement
+// fixes Path for names that are ordinary single path elements only.
+func hasDotElement(p string) bool {
+	for _, e := range strings.Split(p, "/") {
+		if e == "." || e == ".." {
+			return true
+		}
+	}
+	return false
 }
